@@ -45,6 +45,23 @@ def main():
     rep = core.Report("C15")
     quick = core.tier() == "quick"
     rng = random.Random(core.seed() * 7919 + 15)
+    # (A): un-parse / parse round trip inside the language model - for every AST of depth <= 2 the spelling with the fewest
+    # parentheses the precedence order allows, and the fully parenthesised one, are derivable and parse back to the AST
+    import langmc
+    X, Y, K1 = var("x"), var("y"), const(1)
+    UNO = ["neg", "not", "prev", "next", "sprev", "snext", "once", "hist", "ev", "alw", "abs", "rise"]
+    BINO = ["add", "sub", "mul", "div", "and", "or", "implies", "iff", "xor", "since", "until", "unless"]
+    if quick:
+        UNO, BINO = rng.sample(UNO, 7), rng.sample(BINO, 7)
+    D1 = [X, K1] + [un(o, a) for o in UNO for a in (X, K1)] + [un(o, X, 0, 1) for o in ("onceT", "alwT", "evT", "histT")] + \
+         [bi(o, X, Y) for o in BINO] + [pred("ge", X, K1)] + [bi(o, X, Y, 1, 2) for o in ("sinceT", "untilT", "unlessT")]
+    AST = D1 + [un(o, a) for o in UNO for a in D1] + [un(o, a, 0, 1) for o in ("onceT", "alwT") for a in D1] + \
+          [bi(o, a, b) for o in BINO for a in D1 for b in D1] + [pred("ge", a, b) for a in D1 for b in D1] + \
+          [bi(o, a, b, 1, 2) for o in ("sinceT", "untilT") for a in D1[:12] for b in D1[:12]]
+    r = langmc.run("C15_roundtrip", "asts", asts=AST, workers=12)
+    rep.add_mc("LangMC!RoundTrip: Derivable and ParseAssertion(Unparse(p)) = p for %d ASTs of depth <= 2 (minimal and full parentheses)" % len(AST), r)
+    if r["violated"]:
+        rep.mc_violation("LangMC_RoundTrip", r)
     n = 1500 if quick else 12000
     cases = []
     for i in range(n):
